@@ -80,7 +80,33 @@ class C10(E1Check):
         for p in progs:
             p["plans"] = plans[p["plan"]]
             p["sigsets"] = sigsets
+        progs.append({"reuse": True})
         return progs
+
+    def work(self, unit: Any, tier: str) -> dict:
+        if isinstance(unit, dict) and unit.get("reuse"):
+            return self.reuse_unit()
+        return super().work(unit, tier)
+
+    def reuse_unit(self) -> dict:
+        """A subscriber outlives its owner; a new owner allocated at the same address publishes: the event must not reach the old
+        owner's subscriber and must carry the new owner as source (run in a fresh interpreter, see vk/reuse.py)."""
+        from ..reuse import summary_for
+
+        return summary_for("signal", "C10")
+
+    def replay(self, rec: dict) -> Any:
+        if rec.get("program", {}).get("reuse"):
+            s = self.reuse_unit()
+            for v in s["violations"]:
+                for f in v["fails"]:
+                    print("FAIL", f[0], "-", f[1])
+            if s["violations"]:
+                print(f"VIOLATION property=C10 replay={rec.get('_path', '')}")
+                return 1
+            print("no violation on this tree")
+            return 0
+        return super().replay(rec)
 
     def bound(self, tier: str, program: Any) -> int:
         return 0 if tier == "quick" else (1 if len(program["subs"]) <= 1 else 0)
